@@ -403,7 +403,7 @@ func scenarios() []scenario {
 			ops = append(ops, op{kind: "dirty", x: x, flag: false})
 		}
 		ops = append(ops, op{kind: "cleanall"}, op{kind: "inval"}, op{kind: "lock", x: 1}, op{kind: "unlock", x: 1})
-		out = append(out, scenario{"A-wide-3x1", 3, 1, ops, 4, 5})
+		out = append(out, scenario{"A-wide-3x1", 3, 1, ops, 5, 7})
 	}
 	// B: coordinates in and out of range on 2x2
 	{
@@ -419,7 +419,7 @@ func scenarios() []scenario {
 			ops = append(ops, op{kind: "lock", x: p[0], y: p[1]}, op{kind: "unlock", x: p[0], y: p[1]})
 			ops = append(ops, op{kind: "dirty", x: p[0], y: p[1], flag: true})
 		}
-		out = append(out, scenario{"B-coords-2x2", 2, 2, ops, 3, 4})
+		out = append(out, scenario{"B-coords-2x2", 2, 2, ops, 4, 7})
 	}
 	// C: styles, ColorNone merge, on 2x1
 	{
@@ -430,7 +430,7 @@ func scenarios() []scenario {
 			ops = append(ops, op{kind: "fill", r: ' ', style: si})
 		}
 		ops = append(ops, op{kind: "cleanall"}, op{kind: "dirty", x: 0, flag: false}, op{kind: "inval"})
-		out = append(out, scenario{"C-styles-2x1", 2, 1, ops, 4, 5})
+		out = append(out, scenario{"C-styles-2x1", 2, 1, ops, 5, 7})
 	}
 	// D: combining slices, including one the caller mutates afterwards
 	{
@@ -445,7 +445,7 @@ func scenarios() []scenario {
 		}
 		ops = append(ops, op{kind: "mutate"}, op{kind: "cleanall"}, op{kind: "dirty", x: 0, flag: false}, op{kind: "fill", r: 'e'},
 			op{kind: "resize", w: 3, h: 1}, op{kind: "resize", w: 2, h: 1})
-		out = append(out, scenario{"D-combining-2x1", 2, 1, ops, 4, 5})
+		out = append(out, scenario{"D-combining-2x1", 2, 1, ops, 5, 7})
 	}
 	// E: resize among sizes, with content, clean marks and locks
 	{
@@ -455,7 +455,7 @@ func scenarios() []scenario {
 		}
 		ops = append(ops, op{kind: "set", x: 0, y: 0, r: 'a', style: 1}, op{kind: "set", x: 1, y: 0, r: '世'}, op{kind: "set", x: 1, y: 1, r: 'b'},
 			op{kind: "set", x: 2, y: 0, r: 'c'}, op{kind: "cleanall"}, op{kind: "lock", x: 0, y: 0}, op{kind: "unlock", x: 0, y: 0}, op{kind: "fill", r: 'z', style: 2}, op{kind: "inval"})
-		out = append(out, scenario{"E-resize", 2, 2, ops, 4, 5})
+		out = append(out, scenario{"E-resize", 2, 2, ops, 5, 8})
 	}
 	// G: every style field on its own: a change of just that field must dirty the cell
 	{
@@ -464,7 +464,7 @@ func scenarios() []scenario {
 			ops = append(ops, op{kind: "set", x: 0, r: 'a', style: si})
 		}
 		ops = append(ops, op{kind: "fill", r: 'a', style: 5}, op{kind: "fill", r: 'a', style: 10}, op{kind: "cleanall"}, op{kind: "inval"})
-		out = append(out, scenario{"G-style-fields-1x1", 1, 1, ops, 3, 4})
+		out = append(out, scenario{"G-style-fields-1x1", 1, 1, ops, 4, 8})
 	}
 	// F: control / invalid runes through SetContent and Fill on 2x1
 	{
@@ -474,13 +474,13 @@ func scenarios() []scenario {
 			ops = append(ops, op{kind: "fill", r: r})
 		}
 		ops = append(ops, op{kind: "set", x: 1, r: '世'}, op{kind: "cleanall"})
-		out = append(out, scenario{"F-invalid-2x1", 2, 1, ops, 3, 4})
+		out = append(out, scenario{"F-invalid-2x1", 2, 1, ops, 4, 6})
 	}
 	// G: empty buffer
 	{
 		ops := []op{{kind: "set", r: 'a'}, {kind: "fill", r: 'a'}, {kind: "inval"}, {kind: "dirty", flag: false}, {kind: "lock"}, {kind: "unlock"},
 			{kind: "resize", w: 1, h: 1}, {kind: "resize", w: 0, h: 0}, {kind: "cleanall"}}
-		out = append(out, scenario{"G-empty-0x0", 0, 0, ops, 4, 5})
+		out = append(out, scenario{"G-empty-0x0", 0, 0, ops, 7, 7})
 	}
 	return out
 }
